@@ -43,6 +43,7 @@ CL_EXT = "C01.tag.extension_forbidden"
 CL_CHILD = "C01.tag.requires_child"
 CL_UNIT = "C01.value.bad_unit"
 CL_UNIT_EXTRA = "C01.value.bad_unit_token_before_valid_unit"     # narrow: 'Tag/3 xyz s'
+CL_VALID_DURATION_OLD = "C01.valid.duration_delay_in_schema_without_group_attribute"   # narrow: 8.0/8.1 schemas
 CL_VALUE = "C01.value.bad_value"
 CL_VALUE_DT = "C01.value.datetime_out_of_range"                  # narrow: month 13 etc.
 CL_REPEAT = "C01.repeat.tag_or_group"
@@ -240,7 +241,11 @@ class Runner:
                          "HedValidator.validate": errs}, expected="equal")
         return errs, inp
 
+    valid_clause = None     # when set, replaces CL_VALID (used for one narrow family of tags)
+
     def valid(self, text, clause=CL_VALID, phs=(False, True), rule="valid"):
+        if clause == CL_VALID and self.valid_clause:
+            clause = self.valid_clause
         for ph in phs:
             errs, inp = self._obs(text, ph, clause, rule)
             if errs is not None:
@@ -311,8 +316,9 @@ def special_templates(model, defs, node, form):
         other = "Delay" if name == "Duration" else "Duration"
         if other in has_top:
             good += ["(%s/3 s,%s/2 s,(%s))" % (form, other, a)]
-        bad += [("%s/3 s,(%s)" % (form, a), "group"), ("((%s/3 s,(%s)))" % (form, a), "group"),
-                ("(%s,(%s))" % (form, a), "child")]
+        bad += [("%s/3 s,(%s)" % (form, a), "group"), ("((%s/3 s,(%s)))" % (form, a), "group")]
+        if node.has("requireChild"):
+            bad += [("(%s,(%s))" % (form, a), "child")]
     elif name == "Event-context":
         good += ["(%s,%s)" % (form, a), "(%s,(%s),%s)" % (form, a, b), "%s,(%s,%s)" % (a, b, form)]
         bad += [("%s,%s" % (form, a), "group"), ("((%s,%s))" % (form, a), "group"),
@@ -341,6 +347,8 @@ def part_vocabulary(w, run, model, vocab, defs, chunk=0, nchunks=1):
         ctx_c1 = c1 if node.name not in (c1, c2) else "Triangle"
         ctx_c2 = c2 if node.name not in (c1, c2) else "Ellipse"
         special = special_templates(m, defs, node, forms[0]) if node.name in vocab.special else None
+        # Duration / Delay carry no grouping attribute before 8.2.0: by the schema they are ordinary value tags there
+        run.valid_clause = CL_VALID_DURATION_OLD if node.name in ("Duration", "Delay") and special is None else None
         for si, sp in enumerate(spellings):
             idx += 1
             full_mut = (not quick) or si in (0, len(forms) - 1) or si == (idx % len(spellings))
@@ -432,6 +440,7 @@ def part_vocabulary(w, run, model, vocab, defs, chunk=0, nchunks=1):
                     run.invalid("(" + sp + "," + ctx_c1 + "," + other + ")", "repeat", CL_REPEAT)
                 else:
                     run.invalid(ctx_c1 + ",(" + ctx_c2 + ",(" + other + "," + sp + "))", "repeat", CL_REPEAT)
+    run.valid_clause = None
     # unknown words in every context
     for i in range(CONTEXTS if chunk == 0 else 0):
         run.invalid(in_context(UNKNOWN_WORD, i, c1, c2), "unknown", CL_UNKNOWN)
@@ -443,7 +452,9 @@ def part_vocabulary(w, run, model, vocab, defs, chunk=0, nchunks=1):
 # =====================================================================================================
 # part 2: structural grammar
 # =====================================================================================================
-GRAMMAR_BOUND = {True: (3, 2), False: (4, 3)}      # quick / thorough: (max leaves, max depth)
+def grammar_bound(quick, version):
+    """(max leaves, max nesting depth) of the forest shapes"""
+    return (4, 2) if (not quick and version == "8.3.0") else (3, 2)
 
 
 def forests(n, d, _memo={}):
@@ -515,22 +526,40 @@ def written(item):
     return SHORT_OF.get(item, item) if isinstance(item, str) else "(" + ",".join(written(x) for x in item) + ")"
 
 
-def d2_pattern(sibs, i, j):
-    """syntactic description of the region where defect D2 was seen: the two equal groups at positions i, j are
-    written in different member order and another sibling group's (short-form) text lies between their texts in
-    plain string order.  Only used to LABEL a failing case, never to decide the expected result."""
-    a, b = written(sibs[i]), written(sibs[j])
-    if a == b:
-        return False
-    lo, hi = min(a, b), max(a, b)
-    return any(isinstance(x, list) and k not in (i, j) and lo < written(x) < hi for k, x in enumerate(sibs))
+def d2_model_count(tree, text_of=None):
+    """MODEL OF DEFECT D2, used only to choose the LABEL of a case (never the expected result): the number of repeats
+    that an adjacent-duplicates scan finds when the siblings of every list are ordered by their text AS WRITTEN (tags
+    first, then groups) instead of by a canonical form.  0 for a tree that does hold two equal siblings means: this is
+    the region in which D2 was seen (copies written in different member order that such an ordering fails to bring
+    together)."""
+    text_of = text_of or (lambda x: SHORT_OF.get(x, x))
+
+    def wr(x):
+        return "(" + ",".join(wr(y) for y in x) + ")" if isinstance(x, list) else text_of(x)
+
+    def ps(items):
+        tags = sorted((x for x in items if not isinstance(x, list)), key=text_of)
+        groups = sorted((x for x in items if isinstance(x, list)), key=wr)
+        return [text_of(x).casefold() for x in tags] + [ps(x) for x in groups]
+
+    def scan(lst):
+        n = 0
+        prev = None
+        for k, x in enumerate(lst):
+            if k and x == prev:
+                n += 1
+            if isinstance(x, list):
+                n += scan(x)
+            prev = x
+        return n
+    return scan(ps(tree))
 
 
 def build_atoms(model, vocab, defs, rng, quick):
     m = model
     pool_plain = [n for n in vocab.plain_nodes if not n.takes_value and n.name not in defs["plain"]
                   and n.name != defs["value_other"]]
-    pool_val = [n for n in vocab.plain_nodes if n.takes_value and n.value_classes]
+    pool_val = [n for n in vocab.plain_nodes if n.takes_value and n.value_classes and n.name not in ("Duration", "Delay")]
     k = 10 if quick else 30
     plain = rng.sample(pool_plain, k)
     cand = [(n.name, n.name) for n in plain]                                           # short form
@@ -610,7 +639,7 @@ def part_grammar(w, run, model, vocab, defs, chunk=0, nchunks=1):
     specials = special_groups(model, defs)
     a, b = defs["plain"]
     v1, v2 = defs["value_members"]
-    max_n, max_d = GRAMMAR_BOUND[quick]
+    max_n, max_d = grammar_bound(quick, model.version)
     fills = 1
     before = run.n
     shapes = []
@@ -670,17 +699,15 @@ def part_grammar(w, run, model, vocab, defs, chunk=0, nchunks=1):
                             if vi and canon(var) != canon(x):
                                 continue
                             for p in range(len(lst) + 1):
-                                new = lst[:p] + [var] + lst[p:]
-                                j = i + 1 if p <= i else i
-                                cl = CL_REPEAT_D2 if d2_pattern(new, p, j) else CL_REPEAT
-                                run.invalid(render(replace_in(tree, lst, new)), "repeat", cl)
+                                mutated = replace_in(tree, lst, lst[:p] + [var] + lst[p:])
+                                cl = CL_REPEAT if d2_model_count(mutated) else CL_REPEAT_D2
+                                run.invalid(render(mutated), "repeat", cl)
                             # ... and separated from the original by a further group (where D2 was seen)
                             for sep in (["Ellipse"], ["Item"], ["Ellipse", "Item"]):
                                 for new in (lst[:i] + [var, sep, x] + lst[i + 1:], lst[:i] + [x, sep, var] + lst[i + 1:]):
-                                    ii = i if new[i] is var else i + 2
-                                    jj = i + 2 if ii == i else i
-                                    cl = CL_REPEAT_D2 if d2_pattern(new, ii, jj) else CL_REPEAT
-                                    run.invalid(render(replace_in(tree, lst, new)), "repeat", cl)
+                                    mutated = replace_in(tree, lst, new)
+                                    cl = CL_REPEAT if d2_model_count(mutated) else CL_REPEAT_D2
+                                    run.invalid(render(mutated), "repeat", cl)
 
             # ---- special group misplaced / altered ------------------------------------------------------------
             if sp is not None:
@@ -865,6 +892,30 @@ def matched_pairs(toks):
 
 
 # =====================================================================================================
+def part_witness(w, run, model, vocab, defs):
+    """minimal fixed inputs for the narrow clauses (defects seen at design time) and their passing neighbours"""
+    before = run.n
+    a, b = defs["plain"]
+    vn, vu = defs["value_node"], defs["value_unit"]
+    for t in ("Red),(Blue", ")(", "(Red)),((Blue)", "Red)(", "(Red),)Blue(,Green"):
+        run.invalid(t, "parens", CL_PARENS_D1)
+    for t in ("(Red", "Red)", "((Red),Blue", "(Red))"):
+        run.invalid(t, "parens", CL_PARENS)
+    run.invalid("(Red,Blue),(Green),(Blue,Red)", "repeat", CL_REPEAT_D2)
+    run.invalid("((Red),(Blue)),((Green)),((Blue),(Red))", "repeat", CL_REPEAT_D2)
+    for t in ("(Red,Blue),(Blue,Red)", "(Red,Blue),(Green),(Red,Blue)", "(Blue,Red),(Green),(Blue,Red)", "Red,(Green),Red",
+              "(Red,Blue),Green,(Blue,Red)"):
+        run.invalid(t, "repeat", CL_REPEAT)
+    run.valid("(Def-expand/%s,(%s,%s))" % (DEF_PLAIN, a, b))
+    run.valid("(Def-expand/%s,(%s,%s))" % (DEF_PLAIN, b, a), clause=CL_VALID_DEFX_ORDER)
+    run.valid("((%s,%s),Def-expand/%s)" % (a, b, DEF_PLAIN), clause=CL_VALID_DEFX_ORDER)
+    run.invalid("%s/3 xyz %s" % (vn.name, vu), "unit", CL_UNIT_EXTRA)
+    run.invalid("%s/3 xyz" % vn.name, "unit", CL_UNIT)
+    run.invalid("Red/#", "placeholder", CL_PLACEHOLDER_EXT, phs=(True,))
+    run.invalid("Red/#", "placeholder", CL_PLACEHOLDER, phs=(False,))
+    return run.n - before
+
+
 def _task(args):
     """one unit of work, run in a worker process: (tier, seed, version, part, chunk, nchunks) -> partial result"""
     import random
@@ -882,7 +933,9 @@ def _task(args):
     run = Runner(w, env, model)
     run.env_defs = defs["strings"]
     extra = {}
-    if part == "vocabulary":
+    if part == "witness":
+        n = part_witness(w, run, model, vocab, defs)
+    elif part == "vocabulary":
         n = part_vocabulary(w, run, model, vocab, defs, chunk, nchunks)
     else:
         n, extra["shapes"] = part_grammar(w, run, model, vocab, defs, chunk, nchunks)
@@ -904,15 +957,17 @@ def run(w: Workload):
     versions = ["8.3.0"] if w.quick else ["8.3.0", "8.2.0", "8.0.0"]
     for v in versions:
         schema(v)                       # load (and seed the cache) once, before forking
-    vchunks, gchunks = (3, 3) if w.quick else (4, 24)
+    vchunks, gchunks = (4, 4) if w.quick else (5, 8)
     tasks = []
     for v in versions:
+        tasks += [(w.tier, w.seed, v, "witness", 0, 1)]
         tasks += [(w.tier, w.seed, v, "grammar", c, gchunks) for c in range(gchunks)]
         tasks += [(w.tier, w.seed, v, "vocabulary", c, vchunks) for c in range(vchunks)]
     ctx = multiprocessing.get_context("fork")
     with ctx.Pool(min(14, len(tasks))) as pool:
         results = pool.map(_task, tasks, chunksize=1)
-    results.sort(key=lambda r: (versions.index(r["version"]), r["part"] != "vocabulary", r["chunk"]))
+    order = ["witness", "vocabulary", "grammar"]
+    results.sort(key=lambda r: (versions.index(r["version"]), order.index(r["part"]), r["chunk"]))
     agg = {}
     for r in results:
         w.evaluations += r["evaluations"]
@@ -929,9 +984,12 @@ def run(w: Workload):
         for k, n in r["counts"].items():
             a["counts"][k] = a["counts"].get(k, 0) + n
     w.samples = w.samples[:8]
-    max_n, max_d = GRAMMAR_BOUND[w.quick]
     for (version, part), a in agg.items():
-        if part == "vocabulary":
+        max_n, max_d = grammar_bound(w.quick, version)
+        if part == "witness":
+            w.part("witness[%s]" % version, cases=a["cases"], bound="fixed list of minimal inputs for the narrow clauses "
+                   "and their passing neighbours", exhaustive=True, per_clause=a["counts"])
+        elif part == "vocabulary":
             w.part("vocabulary[%s]" % version, cases=a["cases"],
                    bound="every non-deprecated tag of HED%s.xml x every spelling (short, each partial path, long, 2 case "
                          "variants) x rotating context of depth <= 2; values: %s per value class, units: every unit spelling "
